@@ -12,6 +12,7 @@ import (
 	"go/types"
 	"reflect"
 	"regexp"
+	"runtime"
 	"strconv"
 	"strings"
 
@@ -540,6 +541,10 @@ func (p *path) callNative(f reflect.Value, args []value, name string) value {
 				case pathAbort, targetPanic, specAbort:
 					panic(r)
 				}
+				if re, isRT := r.(runtime.Error); isRT {
+					// e.g. a method of go/types dereferencing a nil receiver
+					panic(targetPanic{runtime: true, kind: re.Error(), where: name, v: p.mkStr("runtime error: " + re.Error())})
+				}
 				// the real library panicked (e.g. types.NewNamed misuse): an explicit panic of the world
 				panic(targetPanic{v: iface{t: types.Typ[types.String], v: p.mkStr(fmt.Sprint(r))}, where: name})
 			}
@@ -579,10 +584,6 @@ func (hf hostFunc) call(p *path, args []value) value {
 			p.stubs[full+" (stub)"] = true
 			return v
 		}
-	}
-	if rv.Kind() == reflect.Ptr && rv.IsNil() {
-		// the Go methods of go/types dereference the receiver: nil receiver = runtime error
-		p.runtimePanic("nil pointer dereference (method "+hf.method+" on nil "+rv.Type().String()+")", "")
 	}
 	m := rv.MethodByName(hf.method)
 	if !m.IsValid() {
